@@ -434,7 +434,12 @@ func (m *InterpModel) Call(mc *Machine, st *State, call ssa.CallInstruction, cal
 				}
 			}}}, true
 		case strings.Contains(full, "norm.Form).String"):
-			return []Outcome{{Result: Sym("NFC(" + args[len(args)-1].String() + ")")}}, true
+			// the normal form is the receiver: NFC = 0, NFD = 1, NFKC = 2, NFKD = 3 (golang.org/x/text/unicode/norm)
+			form := "NF?"
+			if r := mc.resolve(st, args[0]); r.K == KInt && r.I >= 0 && r.I < 4 {
+				form = []string{"NFC", "NFD", "NFKC", "NFKD"}[r.I]
+			}
+			return []Outcome{{Result: Sym(form + "(" + args[len(args)-1].String() + ")")}}, true
 		case strings.Contains(full, "bufio") || (pkg == "os" && name != "Exit"):
 			e := m.ev(in, "io", argStrings(args), "")
 			e.KV["fn"] = full
